@@ -204,7 +204,67 @@ pub fn check_report_m(report: &J, truths: &[&Truth], every_clause_has_a_message:
     Ok((f.len(), nmsgs))
 }
 
-fn check_case(doc: &str, files: &[String], names: Option<&BTreeSet<String>>, evals: &mut u64) -> Result<Option<(usize, usize, usize)>, (String, String)> {
+/// messages of the calls of parameterised rules in the generated programs: message -> callee
+fn call_messages(files: &[File]) -> BTreeMap<String, String> {
+    let mut out = BTreeMap::new();
+    for f in files {
+        let mut f = f.clone();
+        let mut grab = |c: &mut Cnf| {
+            for line in c.iter() {
+                for it in line.iter() {
+                    if let Item::PCall { name, msg: Some(m), .. } = it {
+                        out.insert(m.clone(), name.clone());
+                    }
+                }
+            }
+        };
+        visit_cnfs(&mut f, &mut grab);
+    }
+    out
+}
+
+/// a `Rule` entry nested in the checks of another (a parameterised call) carries the message of
+/// the call it stands for: the message written at a call of exactly that rule
+fn check_call_messages(checks: &J, calls: &BTreeMap<String, String>) -> Result<usize, String> {
+    let mut n = 0;
+    match checks {
+        J::Array(a) => {
+            for x in a {
+                n += check_call_messages(x, calls)?;
+            }
+        }
+        J::Object(o) => {
+            if let Some(r) = o.get("Rule") {
+                let name = r["name"].as_str().unwrap_or("").rsplit('/').next().unwrap_or("").to_string();
+                match r["messages"]["custom_message"].as_str() {
+                    Some(m) => {
+                        // (a failing call may list several messages joined? no: one call, one message)
+                        match calls.get(m) {
+                            Some(callee) if *callee == name => {}
+                            Some(callee) => return Err(format!("the listed call of rule {} carries the message <<{}>>, which was written at a call of {}", name, m, callee)),
+                            None => return Err(format!("the listed call of rule {} carries the message <<{}>>, which no call carries", name, m)),
+                        }
+                    }
+                    None => {
+                        if calls.values().any(|c| *c == name) && !calls.is_empty() {
+                            return Err(format!("the listed call of rule {} carries no message although every call of it was written with one", name));
+                        }
+                    }
+                }
+                n += 1;
+                n += check_call_messages(&r["checks"], calls)?;
+            } else {
+                for (_, v) in o {
+                    n += check_call_messages(v, calls)?;
+                }
+            }
+        }
+        _ => {}
+    }
+    Ok(n)
+}
+
+fn check_case(doc: &str, files: &[String], names: Option<&BTreeSet<String>>, calls: Option<&BTreeMap<String, String>>, evals: &mut u64) -> Result<Option<(usize, usize, usize)>, (String, String)> {
     let mut truths = vec![];
     for f in files {
         *evals += 1;
@@ -238,6 +298,12 @@ fn check_case(doc: &str, files: &[String], names: Option<&BTreeSet<String>>, eva
         return Err((format!("{} reports for one data file", reports.len()), "c09:shape".into()));
     }
     let (nf, nm) = check_report_m(&reports[0], &tr, names.is_some()).map_err(|e| (format!("validate --structured: {}", e), "c09:partition".to_string()))?;
+    if let Some(calls) = calls {
+        for e in reports[0]["not_compliant"].as_array().cloned().unwrap_or_default() {
+            // the top-level entries are the file's rules; what is nested in their checks are calls
+            check_call_messages(&e["Rule"]["checks"], calls).map_err(|e| (format!("validate --structured: {}", e), "c09:call-message".to_string()))?;
+        }
+    }
     let any_fail = truths.iter().any(|t| t.statuses.iter().any(|(_, s)| *s == St::Fail));
     if r.code != Ok(if any_fail { 19 } else { 0 }) {
         return Err((format!("exit code {:?} with any_fail={}", r.code, any_fail), "c09:exit-code".into()));
@@ -294,7 +360,8 @@ pub fn replay(case: &J) -> CaseResult {
     let files: Vec<String> = case["rules"].as_array().map(|a| a.iter().map(|x| x.as_str().unwrap_or("").to_string()).collect()).unwrap_or_default();
     let mut e = 0;
     let names: Option<BTreeSet<String>> = case["rule_names"].as_array().map(|a| a.iter().map(|n| n.as_str().unwrap_or("").to_string()).collect());
-    match check_case(doc, &files, names.as_ref(), &mut e) {
+    let calls: Option<BTreeMap<String, String>> = case["call_messages"].as_object().map(|o| o.iter().map(|(k, v)| (k.clone(), v.as_str().unwrap_or("").to_string())).collect());
+    match check_case(doc, &files, names.as_ref(), calls.as_ref(), &mut e) {
         Ok(_) => CaseResult::Pass(Info::default()),
         Err((msg, sig)) => CaseResult::Fail(Failure { msg, sig, case: case.clone() }),
     }
@@ -305,15 +372,19 @@ fn random_case(u: &mut Choices, sz: Size) -> CaseResult {
     let doc_text = doc.to_json();
     let k = *u.pick(&[1usize, 1, 2, 3]);
     let mut files = vec![];
+    let mut asts = vec![];
     let mut names = BTreeSet::new();
+    let sz = Size { nested_calls: true, ..sz };
     for i in 0..k {
         let mut f = gen_wide_file(u, &doc, sz, true);
         prefix_names(&mut f, &format!("f{}", i));
         names.extend(f.rules.iter().map(|r| r.name.clone()));
         files.push(print_file(&f));
+        asts.push(f);
     }
+    let calls = call_messages(&asts);
     let mut evals = 0;
-    match check_case(&doc_text, &files, Some(&names), &mut evals) {
+    match check_case(&doc_text, &files, Some(&names), Some(&calls), &mut evals) {
         Ok(None) => CaseResult::Discard("evaluation-error"),
         Ok(Some((nfail, nmsgs, nrules))) => CaseResult::Pass(Info {
             nontrivial: nfail >= 1 && nrules > nfail,
@@ -322,7 +393,7 @@ fn random_case(u: &mut Choices, sz: Size) -> CaseResult {
             evals,
             sample: Some(json!({"doc": doc_text, "rules": files, "fail_rules": nfail, "messages_checked": nmsgs})),
         }),
-        Err((msg, sig)) => CaseResult::Fail(Failure { msg, sig, case: json!({"doc": doc_text, "rules": files, "rule_names": names.iter().collect::<Vec<_>>()}) }),
+        Err((msg, sig)) => CaseResult::Fail(Failure { msg, sig, case: json!({"doc": doc_text, "rules": files, "rule_names": names.iter().collect::<Vec<_>>(), "call_messages": calls}) }),
     }
 }
 
